@@ -221,7 +221,8 @@ def base_cube(seed, kind):
         a[2, 1, 1] = ND
     else:  # binary
         a = (rs.rand(T, ny, nx) < 0.6).astype("uint8")
-    return xr.DataArray(a, dims=("time", "y", "x"), coords={"time": time, "y": np.arange(ny) * 10.0, "x": np.arange(nx) * 5.0}, attrs={"nodata": ND})
+    return xr.DataArray(a, dims=("time", "y", "x"), coords={"time": time, "y": np.arange(ny) * 10.0, "x": np.arange(nx) * 5.0, "spatial_ref": 0,
+                                                             "lon": (("y", "x"), np.arange(ny * nx, dtype="float64").reshape(ny, nx))}, attrs={"nodata": ND})
 
 
 def catalog():
@@ -278,6 +279,8 @@ def digest_result(r, ny, nx):
     r = r.compute() if hasattr(r.data, "compute") else r
     dims = list(r.dims)
     coords = sorted(f"{c}={','.join(str(v) for v in np.asarray(r[c]).ravel().tolist()[:50])}" for c in r.coords if c in r.dims)
+    # coordinates that are not an index of a dimension (a scalar spatial_ref, 2-d lon / lat): which of them the result keeps
+    coords += sorted(f"aux:{c}" for c in r.coords if c not in r.dims and c != "time")
     if "y" in dims and "x" in dims:
         a = np.asarray(r.transpose("y", "x", ...))
         px = [hashlib.md5(np.ascontiguousarray(a[i, j]).tobytes()).hexdigest()[:12] for i in range(a.shape[0]) for j in range(a.shape[1])]
@@ -340,7 +343,7 @@ def blocked_cases(rep, quick, seed):
         perm = list(range(ny * nx))
         rng.shuffle(perm)
         flat = da.stack(p=("y", "x")).isel(p=perm)
-        dperm = xr.DataArray(flat.data.reshape(T, ny, nx), dims=("time", "y", "x"), coords={"time": da.time, "y": da.y, "x": da.x}, attrs=da.attrs)
+        dperm = xr.DataArray(flat.data.reshape(T, ny, nx), dims=("time", "y", "x"), coords={"time": da.time, "y": da.y, "x": da.x, **{k: da.coords[k].variable for k in da.coords if k not in da.dims}}, attrs=da.attrs)
         aperm = {k: xr.DataArray(np.asarray(v).reshape(-1)[perm].reshape(ny, nx), dims=("y", "x"), coords={"y": da.y, "x": da.x}, attrs=v.attrs) for k, v in aux.items()}
         if not name.startswith("zonal_mean"):
             runs.append(attempt(dperm, aperm, "permuted-pixels", "perm", unperm=perm))
